@@ -120,6 +120,55 @@ theorem exitOf_some {w : Nat → List Bool → List Bool → Rat} {pos : Nat} {e
         rw [hx]; exact hpos
   · cases h
 
+
+/-- `loopBody_cases` with the exit named by `exitOf` -/
+theorem loopBody_cases' (w : Nat → List Bool → List Bool → Rat) (init : Nat × Leg) (pos : Nat)
+    (ent : Leg) (s : LoopSt) :
+    ((loopBody w init pos ent s).2 = none ∧
+      ((loopBody w init pos ent s).1.rs.panicked = true ∨ (loopBody w init pos ent s).1.rs.short = true)) ∨
+    ∃ op ex, exitOf w pos ent s = some (op, ex) ∧
+      (((pos, ex) = init ∧ (loopBody w init pos ent s).2 = none) ∨
+      ((pos, ex) ≠ init ∧ ∃ st' p' r',
+          moveOn s.slots s.state pos (passThrough op ent ex) ex = (st', some (p', r')) ∧
+          (((p', (⟨r', !ex.out⟩ : Leg)) = init ∧ (loopBody w init pos ent s).2 = none) ∨
+           ((p', (⟨r', !ex.out⟩ : Leg)) ≠ init ∧
+              (loopBody w init pos ent s).2 = some (p', ⟨r', !ex.out⟩))))) := by
+  unfold loopBody exitOf
+  cases hs : s.slots[pos]? with
+  | none => left; exact ⟨rfl, Or.inl rfl⟩
+  | some y =>
+    cases y with
+    | none => left; exact ⟨rfl, Or.inl rfl⟩
+    | some op =>
+      simp only
+      by_cases hfl : ((s.rs.genRangeF (sumR (exitWeights (w op.bond) (op.ins, op.outs) ent op.vars.length))).2.panicked ||
+          (s.rs.genRangeF (sumR (exitWeights (w op.bond) (op.ins, op.outs) ent op.vars.length))).2.short) = true
+      · rw [if_pos hfl, if_pos hfl]
+        left
+        refine ⟨rfl, ?_⟩
+        simpa using hfl
+      · rw [if_neg hfl, if_neg hfl]
+        cases hp : pickIdx (s.rs.genRangeF (sumR (exitWeights (w op.bond) (op.ins, op.outs) ent op.vars.length))).1
+            (exitWeights (w op.bond) (op.ins, op.outs) ent op.vars.length) with
+        | none => left; exact ⟨rfl, Or.inl rfl⟩
+        | some j =>
+          simp only
+          split
+          · rename_i hinit
+            right
+            exact ⟨op, _, rfl, Or.inl ⟨hinit, rfl⟩⟩
+          · rename_i hinit
+            split
+            · rename_i st' p' r' hmv
+              right
+              split
+              · rename_i h2
+                exact ⟨op, _, rfl, Or.inr ⟨hinit, st', p', r', hmv, Or.inl ⟨h2, rfl⟩⟩⟩
+              · rename_i h2
+                exact ⟨op, _, rfl, Or.inr ⟨hinit, st', p', r', hmv, Or.inr ⟨h2, rfl⟩⟩⟩
+            · left; exact ⟨rfl, Or.inl rfl⟩
+
+
 /-- one vertex visit of a run: where, entered through which leg, left through which leg, and the
 op as it was before the visit -/
 structure Visit where
@@ -353,5 +402,169 @@ theorem loopUpdate_path_balance (w : Nat → List Bool → List Bool → Rat) (c
 theorem loopUpdate_totalVars (w : Nat → List Bool → List Bool → Rat) (cfg : Config) (rs : RS) :
     totalVars (loopUpdate w cfg rs).1.slots = totalVars cfg.slots :=
   (totalVars_pickLeg_skeleton (loopUpdate_skeleton w cfg rs)).1
+
+/-! ### the trace is a linked path from the start leg to a closing exit -/
+
+theorem occV_skeleton {s1 s2 : Slots} (h : skeletonOf s1 = skeletonOf s2) (v : Nat) :
+    occV s1 v = occV s2 v := by
+  unfold occV
+  rw [skeleton_length h]
+  apply List.filterMap_congr
+  intro p _
+  have := skeleton_getElem? h p
+  cases h1 : s1[p]? with
+  | none =>
+    cases h2 : s2[p]? with
+    | none => rfl
+    | some y => rw [h1, h2] at this; simp at this
+  | some x =>
+    cases h2 : s2[p]? with
+    | none => rw [h1, h2] at this; simp at this
+    | some y =>
+      rw [h1, h2] at this
+      cases x with
+      | none => cases y with
+        | none => rfl
+        | some o2 => simp at this
+      | some o1 => cases y with
+        | none => simp at this
+        | some o2 =>
+          simp only [Option.map_some, Option.some.injEq, Prod.mk.injEq] at this
+          simp only [Op.indexOfVar, this.1]
+
+/-- the leg the exit leg `ex` of the op at `pos` is linked to (`op'` supplies the variables) -/
+def partnerOf (slots : Slots) (pos : Nat) (op' : Op) (ex : Leg) : Option (Nat × Leg) :=
+  (moveOn slots [] pos op' ex).2.map (fun q => (q.1, ⟨q.2, !ex.out⟩))
+
+theorem moveOn_snd (slots : Slots) (st1 st2 : List Bool) (pos : Nat) (op' : Op) (ex : Leg) :
+    (moveOn slots st1 pos op' ex).2 = (moveOn slots st2 pos op' ex).2 := by
+  unfold moveOn
+  simp only
+  split <;> split <;> rfl
+
+theorem partnerOf_of_moveOn {s0 slots : Slots} (hsk : skeletonOf s0 = skeletonOf slots)
+    {st st' : List Bool} {pos : Nat} {op' : Op} {ex : Leg} {p' r' : Nat}
+    (h : moveOn s0 st pos op' ex = (st', some (p', r'))) :
+    partnerOf slots pos op' ex = some (p', ⟨r', !ex.out⟩) := by
+  unfold partnerOf
+  rw [← moveOn_congr s0 slots (fun v => occV_skeleton hsk v), moveOn_snd s0 [] st, h]
+  rfl
+
+/-- a visit closes the loop started at `init`: its exit leg is `init` or is linked to `init` -/
+def Closes (slots : Slots) (init : Nat × Leg) (v : Visit) : Prop :=
+  (v.pos, v.ex) = init ∨ partnerOf slots v.pos v.after v.ex = some init
+
+/-- consecutive visits: the next one enters through the link partner of the previous exit -/
+def Linked (slots : Slots) (a b : Visit) : Prop :=
+  partnerOf slots a.pos a.after a.ex = some (b.pos, b.ent)
+
+/-- `tr` is a path of linked visits that starts by entering `(pos, ent)`; if `closed`, its last
+visit closes the loop -/
+inductive IsPath (slots : Slots) (init : Nat × Leg) : Nat → Leg → Bool → List Visit → Prop
+  | stop (pos : Nat) (ent : Leg) : IsPath slots init pos ent false []
+  | last (v : Visit) (c : Bool) : (c = true → Closes slots init v) → IsPath slots init v.pos v.ent c [v]
+  | step (v : Visit) (p : Nat) (e : Leg) (c : Bool) (t : List Visit) :
+      partnerOf slots v.pos v.after v.ex = some (p, e) → IsPath slots init p e c t →
+      IsPath slots init v.pos v.ent c (v :: t)
+
+theorem IsPath.mono {slots : Slots} {init : Nat × Leg} {pos : Nat} {ent : Leg} {tr : List Visit}
+    (h : IsPath slots init pos ent true tr) : IsPath slots init pos ent false tr := by
+  generalize hc : true = c at h
+  induction h with
+  | stop pos ent => exact IsPath.stop pos ent
+  | last v c _ => exact IsPath.last v false (fun h => by cases h)
+  | step v p e c t hp _ ih => exact IsPath.step v p e false t hp (ih hc)
+
+/-- **the trace of a run is a linked path**; when the run closed, it ends in a closing visit -/
+theorem loopTrace_isPath (w : Nat → List Bool → List Bool → Rat) (init : Nat × Leg) (sk : Slots)
+    (fuel pos : Nat) (ent : Leg) (s : LoopSt) (hsk : skeletonOf s.slots = skeletonOf sk) :
+    IsPath sk init pos ent
+      (!(loopIter w init fuel pos ent s).rs.panicked && !(loopIter w init fuel pos ent s).rs.short)
+      (loopTrace w init fuel pos ent s) := by
+  induction fuel generalizing pos ent s with
+  | zero => simp only [loopIter, loopTrace, Bool.not_true, Bool.and_false]; exact IsPath.stop pos ent
+  | succ f ih =>
+    have hsk' : skeletonOf (loopBody w init pos ent s).1.slots = skeletonOf sk := by
+      rw [loopBody_skeleton]; exact hsk
+    unfold loopIter loopTrace
+    rcases loopBody_cases' w init pos ent s with ⟨hn, hfl⟩ | ⟨op, ex, hex, hcase⟩
+    · -- error exit: flagged, whatever was recorded is a path that does not claim to close
+      rcases heq : loopBody w init pos ent s with ⟨s', _ | ⟨p, e⟩⟩
+      · rw [heq] at hfl
+        simp only at hfl ⊢
+        have hc : (!s'.rs.panicked && !s'.rs.short) = false := by
+          rcases hfl with h | h <;> simp [h]
+        rw [hc]
+        unfold visitHere
+        cases exitOf w pos ent s with
+        | none => exact IsPath.stop pos ent
+        | some q => exact IsPath.last ⟨pos, ent, q.2, q.1⟩ false (fun h => by cases h)
+      · rw [heq] at hn; cases hn
+    · have hv : visitHere w pos ent s = [⟨pos, ent, ex, op⟩] := by unfold visitHere; rw [hex]
+      rw [hv]
+      rcases hcase with ⟨hinit, hnone⟩ | ⟨hinit, st', p', r', hmv, hfin⟩
+      · rcases heq : loopBody w init pos ent s with ⟨s', _ | ⟨p, e⟩⟩
+        · simp only
+          exact IsPath.last ⟨pos, ent, ex, op⟩ _ (fun _ => Or.inl hinit)
+        · rw [heq] at hnone; cases hnone
+      · have hpart := partnerOf_of_moveOn (slots := sk) hsk hmv
+        rcases hfin with ⟨hhead, hnone⟩ | ⟨hhead, hsome⟩
+        · rcases heq : loopBody w init pos ent s with ⟨s', _ | ⟨p, e⟩⟩
+          · simp only
+            exact IsPath.last ⟨pos, ent, ex, op⟩ _ (fun _ => Or.inr (by rw [← hhead]; exact hpart))
+          · rw [heq] at hnone; cases hnone
+        · rcases heq : loopBody w init pos ent s with ⟨s', _ | ⟨p, e⟩⟩
+          · rw [heq] at hsome; cases hsome
+          · rw [heq] at hsome hsk'
+            simp only at hsome hsk' ⊢
+            injection hsome with hsome; injection hsome with e1 e2
+            subst e1; subst e2
+            exact IsPath.step ⟨pos, ent, ex, op⟩ _ _ _ _ hpart (ih _ _ s' hsk')
+
+/-- the exit leg of every visit exists in any string on the same skeleton — in particular the
+exit leg of the last visit, where the reverse loop starts, exists in the result -/
+theorem headOK_skeleton {s1 s2 : Slots} (h : skeletonOf s1 = skeletonOf s2) {p : Nat} {l : Leg}
+    (hh : HeadOK s1 p l) : HeadOK s2 p l := by
+  obtain ⟨op, hop, hr⟩ := hh
+  have := skeleton_getElem? h p
+  rw [hop] at this
+  cases h2 : s2[p]? with
+  | none => rw [h2] at this; simp at this
+  | some y =>
+    rw [h2] at this
+    cases y with
+    | none => simp at this
+    | some o2 =>
+      simp only [Option.map_some, Option.some.injEq, Prod.mk.injEq] at this
+      exact ⟨o2, h2, by rw [← this.1]; exact hr⟩
+
+theorem loopTrace_exit_exists (w : Nat → List Bool → List Bool → Rat) (init : Nat × Leg) (sk : Slots)
+    (fuel pos : Nat) (ent : Leg) (s : LoopSt) (hsk : skeletonOf s.slots = skeletonOf sk) :
+    ∀ v ∈ loopTrace w init fuel pos ent s, HeadOK sk v.pos v.ex := by
+  induction fuel generalizing pos ent s with
+  | zero => intro v hv; simp [loopTrace] at hv
+  | succ f ih =>
+    have hhere : ∀ v ∈ visitHere w pos ent s, HeadOK sk v.pos v.ex := by
+      intro v hv
+      unfold visitHere at hv
+      cases hex : exitOf w pos ent s with
+      | none => rw [hex] at hv; simp at hv
+      | some q =>
+        rw [hex] at hv
+        simp only [List.mem_singleton] at hv
+        subst hv
+        obtain ⟨hop, hr, _⟩ := exitOf_some (op := q.1) (ex := q.2) (by rw [hex])
+        exact headOK_skeleton hsk ⟨q.1, hop, hr⟩
+    have hsk' : skeletonOf (loopBody w init pos ent s).1.slots = skeletonOf sk := by
+      rw [loopBody_skeleton]; exact hsk
+    unfold loopTrace
+    rcases heq : loopBody w init pos ent s with ⟨s', _ | ⟨p, e⟩⟩
+    · exact hhere
+    · rw [heq] at hsk'
+      simp only at hsk' ⊢
+      intro v hv
+      rcases List.mem_append.mp hv with h | h
+      · exact hhere v h
+      · exact ih p e s' hsk' v h
 
 end Qmc.LoopC
